@@ -182,6 +182,19 @@ def parse_document(data):
         return None, (sig, detail)
 
 
+def without_illegal_char_refs(data):
+    """The document with every numeric character reference that denotes a non-Char replaced by U+FFFD: what is left of the
+    document once the known finding C18-illegal-character-reference is set aside."""
+    def sub(m):
+        t = m.group(1)
+        try:
+            cp = int(t[1:], 16) if t[:1] == b'x' else int(t)
+        except ValueError:
+            return m.group(0)
+        return '\ufffd'.encode('utf-8') if (cp > 0x10FFFF or not is_xml_char(chr(cp))) else m.group(0)
+    return _RE_CHAR_REF.sub(sub, as_bytes(data))
+
+
 def check_document(cc, data, route, what=''):
     """Reports a document-parses deviation for an unparseable document; returns the root element or None."""
     root, bad = parse_document(data)
@@ -904,3 +917,4 @@ def parts(tier):
 
 RULE += "  Added after the seeding rounds: comments (also with -- and a trailing -) and exceptions caught around an element in the xml-writer documents; rp66v1-xml-index with private record types 128..255 and both settings of the writer's private option; attribute values compared."
 RULE += '  Part svg-writer: 2..12 elements of the SVGWriter element classes (groups nested to depth 2), attributes from a pool of 1..3 dictionaries that several elements share.'
+RULE += '  Round 17: rp66v1-xml-index compares the index also when the document holds illegal character references (replaced by U+FFFD first).'
